@@ -56,6 +56,7 @@ structure DState where
   frame : Driver.Frame.St := Driver.Frame.St.init
   ether : Driver.Ether.St := Driver.Ether.St.init
   acc : Driver.AccessSets.St := Driver.AccessSets.St.init
+  ophist : Driver.OpFees.HSt := {}
   -- stateful component states go here
 
 def step (st : DState) (line : String) : DState × String :=
@@ -111,6 +112,8 @@ def step (st : DState) (line : String) : DState × String :=
   | "txgas" :: r => (st, TxGas.handle r)
   | "opfee" :: r => (st, OpFees.handleOpfee r)
   | "optx" :: r => (st, OpFees.handleOptx r)
+  | "begin" :: "ophist" :: r => let (s, out) := OpFees.histBegin r; ({ st with ophist := s }, out)
+  | "oh" :: r => let (s, out) := OpFees.histHandle st.ophist r; ({ st with ophist := s }, out)
   | "acctx" :: r => (st, AccessTx.handle r)
   | "begin" :: "acc" :: r => let (s, out) := Driver.AccessSets.begin r; ({ st with acc := s }, out)
   | "a" :: r => let (s, out) := Driver.AccessSets.handle st.acc r; ({ st with acc := s }, out)
